@@ -325,3 +325,29 @@ Proof.
   change (N.to_nat 6) with 6%nat. change 40%nat with (N.to_nat 40).
   apply walk_spec; [assumption|assumption|]. rewrite skipn_length. lia.
 Qed.
+
+(* the reference walk does not depend on its fuel once the fuel exceeds the number of remaining bytes:
+   [spec_walk]'s |packet| + 1 is never what stops it *)
+Lemma spec_chain_fuel : forall f1 f2 nh rest off anyf,
+  (length rest < f1)%nat -> (length rest < f2)%nat ->
+  spec_chain f1 nh rest off anyf = spec_chain f2 nh rest off anyf.
+Proof.
+  induction f1 as [|f1 IH]; intros f2 nh rest off anyf H1 H2; [lia|].
+  destruct f2 as [|f2]; [lia|]. cbn [spec_chain].
+  destruct (kind_of nh); [| | |reflexivity].
+  - destruct rest as [|a [|b r]]; try reflexivity.
+    destruct (N.leb_spec (8 * (b + 1)) (blen (a :: b :: r))) as [Hin|]; [|reflexivity].
+    f_equal. unfold blen in Hin. apply IH; rewrite skipn_length; cbn [length] in *; lia.
+  - destruct rest as [|a [|b [|c1 [|c2 [|c3 [|c4 [|c5 [|c6 r]]]]]]]]; try reflexivity.
+    destruct ((c1 * 256 + c2) / 8 =? 0); [|reflexivity].
+    f_equal. apply IH; cbn [length] in *; lia.
+  - destruct rest as [|a [|b r]]; try reflexivity.
+    destruct (N.leb_spec (4 * (b + 2)) (blen (a :: b :: r))) as [Hin|]; [|reflexivity].
+    f_equal. unfold blen in Hin. apply IH; rewrite skipn_length; cbn [length] in *; lia.
+Qed.
+
+Lemma spec_walk_fuel d f : (length d < f)%nat ->
+  spec_walk d = spec_chain f (nth 6 d 0) (skipn 40 d) 40 false.
+Proof.
+  intros H. unfold spec_walk. apply spec_chain_fuel; rewrite skipn_length; lia.
+Qed.
